@@ -60,9 +60,9 @@ func (f *FaultFile) Truncate(off int64) error {
 	return f.Inner.Truncate(off)
 }
 
-func (f *FaultFile) Close() error { return f.Inner.Close() }
+func (f *FaultFile) Close() error                       { return f.Inner.Close() }
 func (f *FaultFile) GetStat() (int64, time.Time, error) { return f.Inner.GetStat() }
-func (f *FaultFile) Name() string { return f.Inner.Name() }
+func (f *FaultFile) Name() string                       { return f.Inner.Name() }
 func (f *FaultFile) Sync() error {
 	if f.NextSync {
 		f.NextSync = false
